@@ -373,7 +373,11 @@ func (b *Bound) Lower(v *SVal, rv reflect.Value) {
 		if v.Unk == nil {
 			*hp = nil
 		} else {
-			*hp = append([]byte{}, v.Unk...)
+			// spare capacity filled with a sentinel: nothing may be written behind len either
+			hb := make([]byte, len(v.Unk), len(v.Unk)+1+spareCap(len(v.Unk)))
+			copy(hb, v.Unk)
+			fillSpare(hb)
+			*hp = hb
 		}
 	}
 	b.SetExtras(rv)
@@ -457,6 +461,7 @@ func lowerType(t *TypeSpec, v Val, rv reflect.Value) {
 			// spare capacity now and then: len and cap must not be confused by the codec
 			bs := make([]byte, len(v.S), len(v.S)+spareCap(len(v.S)))
 			copy(bs, v.S)
+			fillSpare(bs)
 			rv.SetBytes(bs)
 		}
 	case KList, KSet:
@@ -593,6 +598,17 @@ func (b *Bound) NewValue(v *SVal) reflect.Value {
 	p := b.New()
 	b.Lower(v, p.Elem())
 	return p
+}
+
+// SpareSentinel fills the spare capacity (the bytes between len and cap) of lowered binaries
+// and holders.
+const SpareSentinel = 0xC3
+
+func fillSpare(b []byte) {
+	sp := b[len(b):cap(b)]
+	for i := range sp {
+		sp[i] = SpareSentinel
+	}
 }
 
 // spareCap: a deterministic amount of spare capacity for lowered slices.
